@@ -44,7 +44,7 @@ CLAIMS["C07"] = ("other", "null-check contradiction rule (value-chain path searc
 CLAIMS["C14"] = ("other", "affine abstract interpretation over MIR + who-may-call / dominance rules",
     "Clauses of the capacity contract decided from the code's shape: the counter value compared with the threshold equals what the atomic "
     "RMW left in memory (so removals never look like growth); capacity rounding is min(2^30, next_pow2(1.5c+1)) in both presize paths and "
-    "every published threshold is 3/4 of the new length; resizes are initiated only by add_count (behind the hint test and count >= "
+    "every published threshold is exactly L - floor(L/4) of the new length L (tables of 1 and 2 bins included); resizes are initiated only by add_count (behind the hint test and count >= "
     "threshold) and try_presize (reserve, or an overfull bin in a table shorter than 64); initiation is guarded by len < 2^30; the table "
     "pointer is only ever replaced by a fresh or doubled table; the constants are as stated; capacity 0 allocates nothing; reserve(additional) presizes for len() + additional. Not decided: "
     "'holds c well-distributed entries' (hash distribution) and power-of-two lengths (Q3, under C05).",
